@@ -6,6 +6,7 @@
 package main
 
 import (
+	"sync"
 	"encoding/json"
 	"fmt"
 	"os"
@@ -246,7 +247,8 @@ type cacheCfg struct {
 }
 
 func run(c *runner.Ctx) {
-	race := c.Mode == "race"
+	race := c.Mode == "race" || c.Mode == "racemap"
+	syncMapDirect := c.Mode == "racemap"
 	if race {
 		for _, kv := range strings.Fields(os.Getenv("GORACE")) {
 			if strings.HasPrefix(kv, "log_path=") {
@@ -261,7 +263,12 @@ func run(c *runner.Ctx) {
 	valid.SetCustomerValidFn("gfn", gfn) // global registration happens before any thread starts
 	d := &deleg{inner: valid.NewLRU()}
 	direct := c.Mode == "direct"
-	if direct {
+	if syncMapDirect {
+		// a sync.Map handed over as it is (the README's alternative cache): whatever the library does with caches that
+		// offer more than Load/Store is in play. One instance per process; the fresh-type call gives both threads a
+		// type no earlier execution has seen.
+		valid.SetStructTypeCache(new(sync.Map))
+	} else if direct {
 		// the library's own *LRUCache handed over as it is (no wrapper in between), capacity 1: whatever the library
 		// attaches to a cache of its own type (callbacks on removal, say) is in play. It can be set once per process;
 		// every execution starts from the same content (the warm-up ends with T2).
@@ -489,7 +496,14 @@ func run(c *runner.Ctx) {
 		cfgs        []cacheCfg
 	}
 	var plans []plan
-	if direct {
+	if syncMapDirect {
+		dc := []cacheCfg{{"sync.Map passed directly", func() valid.CacheEr { return valid.NewLRU() }, false}}
+		if c.Thorough() {
+			plans = []plan{{"2x1-bound2", 2, 1, 2, false, dc}, {"3x1-bound1", 3, 1, 1, false, dc}}
+		} else {
+			plans = []plan{{"2x1-bound1", 2, 1, 1, false, dc}}
+		}
+	} else if direct {
 		dc := []cacheCfg{{"own LRU(1) passed directly/warm", func() valid.CacheEr { return valid.NewLRU(1) }, true}}
 		if c.Thorough() {
 			plans = []plan{{"2x1-bound3", 2, 1, 3, true, dc}, {"2x2-bound2", 2, 2, 2, false, dc}, {"3x1-bound2", 3, 1, 2, false, dc}}
@@ -559,6 +573,7 @@ func main() {
 		Modes: []runner.Mode{
 			{Name: "plain"},
 			{Name: "direct", Workers: 6},
+			{Name: "racemap", Workers: 4, BinarySuffix: ".race", Env: []string{"GORACE=log_path={W}.race halt_on_error=0 exitcode=0 atexit_sleep_ms=0 history_size=2"}},
 			{Name: "race", BinarySuffix: ".race", Env: []string{"GORACE=log_path={W}.race halt_on_error=0 exitcode=0 atexit_sleep_ms=0 history_size=2"}},
 		},
 		QuickBudget:    5 * time.Minute,
